@@ -1386,6 +1386,12 @@ func TestVerif_C24(t *testing.T) {
 		bin, _ = os.Executable()
 	}
 
+	if r.IsReplay() {
+		var hc c24hcase
+		if r.ReplayCase(&hc) && len(hc.Frames) > 0 {
+			return // a case of the history unit (C24_history_test.go)
+		}
+	}
 	var fixes []*c24fix
 	var rc c24case
 	if r.ReplayCase(&rc) && (rc.Stream != "" || rc.Gen != "") {
